@@ -172,10 +172,36 @@ def emit() -> str:
     wraps = "episode_num = episode_num % len(self.schedule)" in src and "if episode_num >= len(self.schedule)" in src
     order = "[self.episode_data[fn] for fn in filenames_to_join] + [self.base_scenario]" in src
     by_key = "filenames_to_join = self.schedule[episode_num]" in src
-    # install guard (F-22): the map tested by `install` is never written anywhere in software_manager.py
+    # SoftwareManager.install / uninstall (F-22, repaired): who writes the class map the guard reads, what the guard refuses,
+    # and whether an installed namesake is uninstalled before the new instance is registered anywhere
     sm_src = (parse("simulator/system/core/software_manager.py"))
     writes = [n for n in ast.walk(sm_src) if isinstance(n, ast.Subscript) and isinstance(n.ctx, ast.Store)
               and ast.unparse(n.value) == "self._software_class_to_name_map"]
+    smc = class_def(sm_src, "SoftwareManager")
+    inst, uninst = find_method(smc, "install"), find_method(smc, "uninstall")
+    body = [st for st in inst.body if not (isinstance(st, ast.Expr) and isinstance(st.value, ast.Constant))]
+    guard_only_bare = (isinstance(body[0], ast.If)
+                       and ast.unparse(body[0].test) == "software_class in self._software_class_to_name_map and software_config is None"
+                       and isinstance(body[0].body[-1], ast.Return) and not body[0].orelse)
+    # position of the replace statement and of the first registration statement among the top-level statements of install
+    def _is_replace(st):
+        return (isinstance(st, ast.If) and ast.unparse(st.test) == "software.name in self.software" and not st.orelse
+                and any(isinstance(x, ast.Expr) and ast.unparse(x.value) == "self.uninstall(software.name)" for x in st.body))
+    REGISTER = ("self.node.applications[software.uuid] = software", "self.node.services[software.uuid] = software",
+                "self.software[software.name] = software", "self.port_protocol_mapping[software.port, software.protocol] = software",
+                "self._software_class_to_name_map[software_class] = software.name")
+    def _registers(st):
+        return any(ast.unparse(x) in REGISTER for x in ast.walk(st) if isinstance(x, ast.Assign))
+    i_rep = [i for i, st in enumerate(body) if _is_replace(st)]
+    i_reg = [i for i, st in enumerate(body) if _registers(st)]
+    n_reg = sum(1 for x in ast.walk(inst) if isinstance(x, ast.Assign) and ast.unparse(x) in REGISTER)
+    replaces_first = len(i_rep) == 1 and bool(i_reg) and i_rep[0] < min(i_reg) and n_reg == len(REGISTER)
+    un_src = ast.unparse(uninst)
+    uninstall_clears = ("self._software_class_to_name_map.pop(key)" in un_src and "self.software.pop(software_name)" in un_src
+                        and "self.node.applications.pop(software.uuid)" in un_src and "self.node.services.pop(software.uuid)" in un_src
+                        and "self.port_protocol_mapping.pop(key)" in un_src
+                        and "self.node._application_request_manager.remove_request(software.name)" in un_src
+                        and "self.node._service_request_manager.remove_request(software.name)" in un_src)
     lines = ["namespace Primaite.Gen.Config",
              "/-- mapping-iteration sites in the loader functions: (function, iterated expression) -/",
              "def sites : List (String × String) := ["]
@@ -197,5 +223,8 @@ def emit() -> str:
               f"def scheduleVariantsThenBase : Bool := {'true' if order else 'false'}",
               f"def scheduleReadByKey : Bool := {'true' if by_key else 'false'}",
               f"def installGuardMapWrites : Nat := {len(writes)}",
+              f"def installGuardOnlyBare : Bool := {'true' if guard_only_bare else 'false'}",
+              f"def installReplacesNamesakeFirst : Bool := {'true' if replaces_first else 'false'}",
+              f"def uninstallClearsClassMap : Bool := {'true' if uninstall_clears else 'false'}",
               "end Primaite.Gen.Config", ""]
     return "\n".join(lines)
